@@ -4,8 +4,11 @@ proof : Properties/C17.v (no_private_attr, handout_is_hop / hop_is_public, forma
         filters_route_through_env, codegen_no_raw_attr) — for every table, object tree, name, path
         and expression; regenerated per run: build/C17/SbxGenC17.v (UNSAFE_* tables from sandbox.py:
         frame / code attributes of generators, coroutines and async generators stay internal)
-tie   : T1      UNSAFE_* tables + pinned shape of is_internal_attribute / is_safe_attribute /
-                getattr / getitem / unsafe_undefined / wrap_str_format / get_field
+tie   : T5      gen/sbx_translate.py: current source of is_internal_attribute / is_safe_attribute /
+                getattr / getitem as terms of Lib/PySbx.v; build/C17/Gen_sbx_src.v proves
+                source term = model function for every argument
+        T1      UNSAFE_* tables + pinned shape of unsafe_undefined / wrap_str_format / get_field /
+                compiler.visit_Getattr / visit_Getitem
         K-attr  extracted is_internal_attribute / is_safe_attribute == the real functions on real
                 objects of every isinstance branch x their dir() + table + probe names
         K-rt    extracted sandbox_getattr / sandbox_getitem / do_attr == SandboxedEnvironment.getattr /
@@ -24,6 +27,7 @@ import re
 from . import lib
 from . import sbx_codegen as cg
 from . import sbx_objects as ob
+from . import sbx_src_tie
 
 RULE = ("K-attr: 11 real objects (one per isinstance branch) x (dir(obj) + UNSAFE tables + probe names). K-rt: kinds "
         "{other, function, method, type, str} x 14 names x attribute state {none, plain, fmt, fmtmap} x item state x "
@@ -34,9 +38,9 @@ RULE = ("K-attr: 11 real objects (one per isinstance branch) x (dir(obj) + UNSAF
         "objects x 24 private/internal + 5 public names x 33 access paths x {sync, async}; non-trivial = the attribute "
         "exists on the base object and is unsafe.")
 
-SHAPES = ("is_internal_attribute", "SandboxedEnvironment.is_safe_attribute", "SandboxedEnvironment.getitem",
-          "SandboxedEnvironment.getattr", "SandboxedEnvironment.unsafe_undefined", "SandboxedEnvironment.wrap_str_format",
-          "SandboxedFormatter.get_field")
+# functions that are NOT translated (Gen_sbx_src.v covers is_internal_attribute, is_safe_attribute, getattr,
+# getitem): their canonical text stays pinned
+SHAPES = ("SandboxedEnvironment.unsafe_undefined", "SandboxedEnvironment.wrap_str_format", "SandboxedFormatter.get_field")
 
 SYN_NAMES = ["pub", "x1", "_priv", "__zz", "__zz__", "_", "mro", "gi_frame", "gi_code", "cr_frame", "ag_frame", "format",
              "format_map", "f_globals"]
@@ -91,7 +95,7 @@ def regenerate(ctx):
     except sbx_tables.TranslatorError as e:
         bad.append(str(e))
     ctx.obligations += 1
-    ctx.obligation_names.append("shape of is_internal_attribute / is_safe_attribute / getattr / getitem / wrap_str_format / get_field / compiler.visit_Getattr / visit_Getitem")
+    ctx.obligation_names.append("shape of unsafe_undefined / wrap_str_format / get_field / compiler.visit_Getattr / visit_Getitem")
     if bad:
         ctx.broken.append("T1: source shape differs from the modelled one: " + ", ".join(bad))
         ctx.extra["shape_changed"] = {q: facts["shapes"][q] for q in bad}
@@ -422,6 +426,27 @@ def judge_render(ctx, envs, case):
         close()
 
 
+def judge_host_format(ctx, envs, case):
+    """a bound str.format supplied by the host must still run through the sandboxed formatter"""
+    env, cache = envs[case["mode"]]
+    src = ob.HOST_FORMAT[case["path"]]
+    data, close = ob.tracer_data()
+    try:
+        out = render_outcome(env, cache, src, data)
+        case.update(template=src, outcome=out[:200])
+        if ob.SENT in out:
+            reject_once(ctx, case, f"a host-supplied bound format method ran natively: the sentinel of a private attribute "
+                                   f"appears in the output of {src!r} ({case['mode']})", f"C17:render:host-format:{case['path']}")
+            return False
+        if not out.startswith("ok:") or "PUBLIC" not in out:
+            ctx.model_mismatch("K-rt host-supplied format method is formatted by the sandboxed formatter", case,
+                               "ok:|PUBLIC", out, None)
+            return False
+        return True
+    finally:
+        close()
+
+
 def make_render_envs():
     from jinja2.sandbox import SandboxedEnvironment
     return {"sync": (SandboxedEnvironment(), {}), "async": (SandboxedEnvironment(enable_async=True), {})}
@@ -438,6 +463,9 @@ def run(ctx):
         "an Undefined / SecurityError-undefined gives no access to the object it was created for (Undefined has no public attributes)",
     ]
     ctx.proof("C17")
+    # T5: the current source of is_internal_attribute, is_safe_attribute, getattr and getitem, interpreted
+    # in Coq, equals the model functions for every table, object tree and name / key
+    sbx_src_tie.source_equations(ctx, ("internal", "safe", "access"))
     facts = regenerate(ctx)
     env = SandboxedEnvironment()
     if facts is not None:
@@ -460,6 +488,15 @@ def run(ctx):
             ctx.validated()
 
 
+    for path, mode in itertools.product(ob.HOST_FORMAT, ("sync", "async")):
+        case = {"kind": "host-format", "path": path, "mode": mode}
+        ok = judge_host_format(ctx, envs, case)
+        ctx.case(sample=case if path == "dict-item" else None, key=("host-format", path, mode))
+        ctx.count("render_host_format_" + mode)
+        if ok:
+            ctx.validated()
+
+
 def replay(ctx, data):
     jinja2 = lib.use_repo_jinja()
     case = data.get("case")
@@ -470,6 +507,8 @@ def replay(ctx, data):
     kind = case.get("kind")
     if kind == "render":
         judge_render(ctx, make_render_envs(), {k: case[k] for k in ("kind", "base", "name", "path", "mode")})
+    elif kind == "host-format":
+        judge_host_format(ctx, make_render_envs(), {k: case[k] for k in ("kind", "path", "mode")})
     elif kind == "access":
         env = SandboxedEnvironment()
         from jinja2 import filters as jf
